@@ -332,6 +332,48 @@ func sweeps(r *hx.Run, g *gen, next nextWorld, tr *registry.Transport) {
 	}
 }
 
+// retrySweep: layers large enough for part of the payload to have reached the
+// spool file (the fetcher writes through a 4 KiB buffer) when the first
+// transfer dies; a second request would be answered correctly. Every cut on a
+// coarse grid plus the block boundaries around 4 KiB, each way of dying.
+func retrySweep(r *hx.Run, g *gen, next nextWorld, tr *registry.Transport) {
+	nb := g.cfg.N(3, 12)
+	for i := 0; i < nb && !r.Stop(); i++ {
+		b := g.bigBase()
+		good := registry.New(g.consistentCT(b.comp), b.wire)
+		n := len(b.wire)
+		cuts := []int{0, 1, 3, 4, 512, 4095, 4096, 4097, 8192, n - 1, n}
+		step := n / g.cfg.N(6, 40)
+		if step < 1 {
+			step = 1
+		}
+		for k := step; k < n; k += step {
+			cuts = append(cuts, k)
+		}
+		for _, k := range cuts {
+			if k < 0 || k > n || r.Stop() {
+				continue
+			}
+			bad, how := g.dying(good, k)
+			l := &layer{api: "new", digest: digestOf("sha256", b.wire), uriKind: 'g', mediaType: tarMediaTypes[0],
+				script: bad, more: []*registry.Response{good.Clone()}, comp: b.comp, damage: "retry-sweep:first-dies(" + how + ")-then-good",
+				files: b.files, payload: b.payload}
+			w := next(tr, false)
+			w.realize(0, []*layer{l}, g.rnd.Chance(1, 4))
+			w.finish()
+		}
+		// the same layer fetched correctly, read by several consumers
+		l := &layer{api: "new", digest: digestOf("sha256", b.wire), uriKind: 'g', mediaType: tarMediaTypes[0],
+			script: good.Clone(), comp: b.comp, damage: "none", files: b.files, payload: b.payload, pristine: true}
+		w := next(tr, false)
+		w.realize(0, []*layer{l}, true)
+		for k := 0; k < 3; k++ {
+			w.consumeSome(0)
+		}
+		w.finish()
+	}
+}
+
 // history: one arena, several calls. A layer whose digest string is held by an
 // open FetchProxy is served from the arena whatever the server would answer;
 // once everything holding it is closed it is fetched (and checked) again.
@@ -423,7 +465,7 @@ func loopback(r *hx.Run, g *gen, cfg hx.Config, next nextWorld) {
 		if ct := l.script.Header.Get("Content-Type"); ct != strings.TrimSpace(ct) {
 			l.script.Header.Set("Content-Type", strings.TrimSpace(ct))
 		}
-		_, term := l.script.Delivered()
+		_, term := l.seen()
 		if term == registry.TermStall {
 			if stalls == 0 {
 				continue
@@ -443,11 +485,17 @@ func loopback(r *hx.Run, g *gen, cfg hx.Config, next nextWorld) {
 // transportContract fetches the script with net/http directly and compares
 // what the body reader sees with Response.Delivered.
 func transportContract(r *hx.Run, srv *registry.Server, l *layer) {
-	want, term := l.script.Delivered()
-	if st := statusOf(l.script); l.script.RefuseConn || st == 204 || st == 304 || st < 200 {
+	fin, loops := l.final()
+	if loops {
+		return
+	}
+	fin = fin.Clone()
+	fin.Header.Del("Location") // (a 3xx that is the final response: keep the client from following it here)
+	want, term := fin.DeliveredTo(http.MethodGet, nil)
+	if st := statusOf(fin); fin.RefuseConn || st == 204 || st == 304 || st < 200 {
 		return // no request, or a status that carries no body
 	}
-	srv.Set("/contract", l.script)
+	srv.Set("/contract", fin)
 	ctx, cancel := context.WithTimeout(context.Background(), 5*time.Second)
 	if term == registry.TermStall {
 		cancel()
@@ -457,7 +505,7 @@ func transportContract(r *hx.Run, srv *registry.Server, l *layer) {
 	req, _ := http.NewRequestWithContext(ctx, http.MethodGet, srv.URL("/contract"), nil)
 	resp, err := srv.Client().Do(req)
 	if err != nil {
-		r.Fail("", fmt.Sprintf("harness-transport-contract: request error %v for %s", err, l.script.Describe()))
+		r.Fail("", fmt.Sprintf("harness-transport-contract: request error %v for %s", err, fin.Describe()))
 		return
 	}
 	defer resp.Body.Close()
@@ -478,10 +526,10 @@ func transportContract(r *hx.Run, srv *registry.Server, l *layer) {
 		// a reset may discard bytes still in flight
 		okBytes = bytes.HasPrefix(want, got)
 	}
-	r.Case("transport-contract "+l.script.Describe(), true)
+	r.Case("transport-contract "+fin.Describe(), true)
 	r.Count("transport-contract:" + term.String())
-	if !okTerm || !okBytes || resp.StatusCode != statusOf(l.script) {
+	if !okTerm || !okBytes || resp.StatusCode != statusOf(fin) {
 		r.Fail("", fmt.Sprintf("harness-transport-contract: delivered %d bytes err=%v status=%d, expected %d bytes term=%s status=%d: %s",
-			len(got), rerr, resp.StatusCode, len(want), term, statusOf(l.script), l.script.Describe()))
+			len(got), rerr, resp.StatusCode, len(want), term, statusOf(fin), fin.Describe()))
 	}
 }
